@@ -10,7 +10,7 @@ print(f"""You are working on a scratch git worktree of the Go library hashicorp/
 
 Environment (the sandbox has NO network; run this at the start of every shell command because the environment does not persist):
   export GOFLAGS=-mod=mod GOPROXY=off GOSUMDB=off GOTOOLCHAIN=local PATH=/opt/veriftools/go1.26.8/bin:$PATH
-The existing test suite is run with:  cd {wt} && go test -vet=off -count=1 -timeout 25m ./...   (about 45-90 seconds; a few tests bind loopback ports and are timing sensitive and the machine is shared, so if a test unrelated to your change fails, re-run just that test with -run a few times to confirm it is flaky).
+The existing test suite is run with:  cd {wt} && unshare -rn sh -c 'ip link set lo up; go test -vet=off -count=1 -timeout 25m ./...'   (the unshare wrapper gives the run its own loopback network so that it cannot collide on ports with other jobs on this shared machine; use the same wrapper for every go test invocation; about 45-90 seconds; a few tests bind loopback ports and are timing sensitive and the machine is shared, so if a test unrelated to your change fails, re-run just that test with -run a few times to confirm it is flaky).
 
 Here is a semantic property that the library satisfies (this JSON record is all you are given about it):
 
